@@ -108,6 +108,15 @@ func (p *Program) expectForward(c *Check, rule string, fn *types.Func, why strin
 		}
 		exps = append(exps, e.String())
 	}
+	// the same comparison after expanding same-package helper forwarders on both sides
+	// (an accessor such as `func (g *Feature) baseSpatial() Spatial { return g.base.Spatial() }`)
+	gotI := p.inlineIn(sh.final(), 2, fn.Pkg()).String()
+	for _, e := range expected {
+		if p.inlineIn(e, 2, fn.Pkg()).String() == gotI {
+			c.OK(rule, name, p.declPos(fn), why+": returns "+got+" (= "+gotI+")")
+			return
+		}
+	}
 	o := c.Bad(rule, name, p.declPos(fn), why+": the method does not forward to the required kernel with the required operand roles")
 	o.Expected = strings.Join(exps, "  or  ")
 	o.Observed = got
